@@ -27,7 +27,8 @@ RULE = (
     "from_s3 bodies run.  Oracle: same class and same str() from all four sources; the three "
     "constructors give the same reader IDs and the same merged str(mc); each MosReader reports "
     "message_id / ro_id / mos_type equal to those of the object it restores, and restores a new "
-    "object with equal str() on every access; get_mos_files == the keys with the prefix and the "
+    "object with equal str() on every access - also after previously restored objects were modified "
+    "(tree edited, roDelete merged); get_mos_files == the keys with the prefix and the "
     "suffix in S3 (UTF-8 binary) order, across all pages.  Non-trivial = non-ASCII content, or >= 2 "
     "result pages, or a key lacking the suffix.")
 ASSUMPTIONS = ['the fake S3 models the ListObjects contract the code relies on: server-side prefix filter, '
@@ -93,6 +94,23 @@ def judge_doc(case):
                             fails.append(Failure(PROP, f'C18|reader:{name}|restored-object-differs',
                                                  'restored object serialises differently from the original content',
                                                  outs['str'][1], str(a)))
+                        # "fresh": whatever happens to one restored object must not show
+                        # in the next one (tree edited through the public .xml, and a
+                        # roDelete merged into a restored running order)
+                        for el in list(a.xml.iter()):
+                            el.append(ET.Element('verif-marker'))
+                            el.text = 'changed'
+                        if type(b).__name__ == 'RunningOrder' and not b.completed:
+                            try:
+                                b += MosFile.from_string(B.tostring(B.envelope(B.ro_delete(b.ro_id), 99999999)))
+                            except Exception:
+                                pass
+                        c = mr.mos_object
+                        if str(c) != outs['str'][1]:
+                            fails.append(Failure(PROP, f'C18|reader:{name}|restored-object-not-fresh',
+                                                 'an object restored after an earlier restored object was '
+                                                 'modified differs from the original content',
+                                                 outs['str'][1], str(c)))
                 except Exception as e:
                     fails.append(Failure(PROP, f'C18|reader:{name}|raised-{type(e).__name__}', f'{e}'))
     return fails
